@@ -34,11 +34,12 @@ template <class F> static R guard(F f) {
 static void put_r(Out &o, const char *k, const R &r) { o.c(',').k(k).s("{").k("res").q(r.res).c(',').k("v").s(r.res == "ok" ? r.v : "[]").c('}'); }
 
 // decode through the caller-buffer form into an exact-size block (ASan redzone behind it)
-static std::string buf_decode(bool hex, const string &text, bool null_out, size_t outsize) {
+static std::string buf_decode(bool hex, const string &text, bool null_out, size_t outsize, size_t claimed = 0) {
     Out o;
     char *buf = null_out ? nullptr : (char *)malloc(outsize ? outsize : 1);
     if (buf) memset(buf, 0xEE, outsize ? outsize : 1);
-    ST_ssize_t ret = hex ? ST::hex_decode(text, buf, outsize) : ST::base64_decode(text, buf, outsize);
+    // `claimed`: the caller states a capacity above the real (sufficient) one, e.g. SIZE_MAX for "unbounded"
+    ST_ssize_t ret = hex ? ST::hex_decode(text, buf, claimed ? claimed : outsize) : ST::base64_decode(text, buf, claimed ? claimed : outsize);
     o.s("{").k("ret").i((long long)ret).c(',').k("buf");
     if (buf && ret >= 0 && (size_t)ret <= outsize) put_units(o, buf, (size_t)ret); else o.s("[]");
     o.c('}');
@@ -110,7 +111,7 @@ static void op_dec(bool hex, const Bytes &text) {
     size_t top = (text.size() / (hex ? 2 : 4)) * (hex ? 1 : 3) + 2;
     o.c(',').k("null").s(buf_decode(hex, s, true, 0)).c(',').k("sized").c('[');
     for (size_t sz = 0; sz <= top; ++sz) { if (sz) o.c(','); o.s(buf_decode(hex, s, false, sz)); }
-    o.s("]}\n"); o.maybe_flush();
+    o.s("]").c(',').k("huge").c('[').s(buf_decode(hex, s, false, top, (size_t)-1)).c(',').s(buf_decode(hex, s, false, top, ((size_t)-1 >> 1) + 1)).s("]}\n"); o.maybe_flush();
 }
 
 static std::vector<long long> parse_list(const char *s) {
